@@ -414,7 +414,43 @@ func collArgSmall(r *rng) MalType {
 	}
 }
 
+// rename-keys with an injective renaming whose targets never collide with a key that stays: the
+// result is then independent of Go's map iteration order, so multi-entry maps, swaps, cycles and
+// chains can be compared
+func renameKeysCase(r *rng) MalType {
+	keys := []string{kw("a"), kw("b"), kw("c"), "k"}
+	n := 2 + r.intn(3)
+	data := map[string]MalType{}
+	for i := 0; i < n; i++ {
+		data[keys[i]] = i + 1
+	}
+	present := keys[:n]
+	// a permutation of a subset of the present keys (swap / cycle / chain closing on itself), plus renames to fresh keys
+	perm := append([]string{}, present...)
+	for i := len(perm) - 1; i > 0; i-- {
+		j := r.intn(i + 1)
+		perm[i], perm[j] = perm[j], perm[i]
+	}
+	ren := map[string]MalType{}
+	m := r.intn(n + 1)
+	if m >= 2 {
+		sub := perm[:m]
+		for i, k := range sub {
+			ren[k] = sub[(i+1)%m] // cycle over `sub`
+		}
+	} else if m == 1 {
+		ren[perm[0]] = kw("fresh")
+	}
+	if r.chance(1, 3) {
+		ren[kw("absent")] = kw("zz") // renaming of a key that is not there
+	}
+	return call1("rename-keys", call1("quote", HashMap{Val: data}), call1("quote", HashMap{Val: ren}))
+}
+
 func collCall(r *rng, depth int) MalType {
+	if r.chance(1, 25) {
+		return renameKeysCase(r)
+	}
 	b := collBuiltins[r.intn(len(collBuiltins))]
 	n := b.arity[r.intn(len(b.arity))]
 	items := []MalType{sy(b.name)}
